@@ -431,6 +431,15 @@ func c12(r *core.Run) {
 					r.Check(nn, "X1", core.FuncName(cl), "nil-keys-not-indexed", p.InstrPos(c), "index entries are written only for non-nil keys", "rebuild writes index entries for nil keys")
 				}
 			}
+			// every stored item is decoded into a fresh value: json.Unmarshal does not reset its target,
+			// so a value allocated once outside the scan loop keeps fields of the previous item
+			for _, f2 := range withAnon(cl) {
+				for _, c := range core.Calls(f2) {
+					if cal := c.Common().StaticCallee(); cal != nil && cal.String() == "reflect.New" && len(rangeLoopHead(f2)) > 0 {
+						r.Check(core.Reaches(c, c), "X1", core.FuncName(f2), "decode-target-allocated-per-item", p.InstrPos(c), "the value decoded into is created inside the scan loop", "the value that stored items are decoded into is created once, outside the scan loop: members absent from an item's JSON (omitempty fields, map keys) keep the previous item's content, and the rebuilt index gets entries for values that do not have that key")
+					}
+				}
+			}
 		}
 	}
 }
@@ -720,6 +729,26 @@ func c13(r *core.Run) {
 			}
 		}
 	}
+	// the "unlimited" sentinel is max-int: the limit may be counted down and compared, never added to
+	{
+		bad := ""
+		for _, f2 := range withAnon(fc) {
+			for _, b := range f2.Blocks {
+				for _, in := range b.Instrs {
+					bo, ok := in.(*ssa.BinOp)
+					if !ok || bo.Op != token.ADD {
+						continue
+					}
+					for _, op := range []ssa.Value{bo.X, bo.Y} {
+						if derivesFromField(op, "IndexQuery", "Limit") {
+							bad = p.InstrPos(bo)
+						}
+					}
+				}
+			}
+		}
+		r.Check(bad == "", "W1", core.FuncName(fc), "limit-never-added-to", p.Pos(fc.Pos()), "the limit (max-int when unlimited) is only decremented and compared", "the limit variable, which holds max-int for an unlimited query, is an operand of an addition at "+bad+": offset+limit overflows to a negative window end and an unlimited query with an offset returns a single id")
+	}
 	r.Check(negOK, "W1", core.FuncName(fc), "negative-limit->max-int", p.Pos(fc.Pos()), "negative limit means unlimited", "a negative limit is not mapped to max-int")
 }
 
@@ -858,6 +887,20 @@ func c14(r *core.Run) {
 		r.Bad("N1", core.FuncName(ui), "fan-out-exists", p.Pos(ui.Pos()), "no query-change fan-out / no index transaction in updateIndex")
 	}
 	for _, c := range fan {
+		// what the callbacks receive describes this mutation for good: a value copy or a freshly
+		// allocated object, never a pointer into the query store (handlers keep it for later Events calls)
+		for _, a := range c.Common().Args {
+			mi, ok := a.(*ssa.MakeInterface)
+			if !ok {
+				continue
+			}
+			if _, isPtr := mi.X.Type().Underlying().(*types.Pointer); !isPtr {
+				r.OK("N1", core.FuncName(ui), "query-change-value-is-private-to-the-mutation", p.InstrPos(c), "the callbacks get a copy of the change value")
+				continue
+			}
+			al, fresh := mi.X.(*ssa.Alloc)
+			r.Check(fresh && al.Heap, "N1", core.FuncName(ui), "query-change-value-is-private-to-the-mutation", p.InstrPos(c), "the callbacks get a freshly allocated change object", "the query-change callbacks are handed a pointer to "+valDesc(mi.X)+", which the next index update overwrites: a query handler that answers its query event later (QueryChange.Events is called when the gateway's query requests arrive) describes a different mutation - affected queries are reported unaffected and vice versa")
+		}
 		okCommit, okMsg, okFlag := false, false, false
 		for _, ed := range dominatingEdges(c) {
 			d := describeCond(ed)
@@ -1391,6 +1434,21 @@ func derivesFromField(v ssa.Value, tname, fname string) bool {
 	}
 	if isF(v) {
 		return true
+	}
+	if phi, ok := v.(*ssa.Phi); ok {
+		for _, e := range phi.Edges {
+			if e != v && isF(e) {
+				return true
+			}
+			if p2, ok := e.(*ssa.Phi); ok && p2 != phi {
+				for _, e2 := range p2.Edges {
+					if isF(e2) {
+						return true
+					}
+				}
+			}
+		}
+		return false
 	}
 	u, ok := v.(*ssa.UnOp)
 	if !ok || u.Op != token.MUL {
